@@ -4,8 +4,8 @@ CONSTANTS
   MaxSpurious = 0
   FORWARD_WAKER = TRUE
   READY_DRAINS = TRUE
-  MaxTok = 4
+  MaxTok = 5
   MaxPairTok = 2
-  Toks = {"x", "u", "LF", "CR", "CRLF", "SP", "COLON", "DATA", "EV", "ID", "RETRY", "BOM"}
+  Toks = {"x", "u", "n", "LF", "CR", "CRLF", "SP", "COLON", "DATA", "EV", "ID", "RETRY", "BOM"}
 INVARIANTS WantedOK ImplDev DevSharp NormOK
 CHECK_DEADLOCK FALSE
